@@ -2,7 +2,9 @@ import Proofs.Lemmas.FastSimOps
 import Proofs.Lemmas.FastSelect
 import Proofs.Props.C01
 import Proofs.Lemmas.CLimb
+import Proofs.Lemmas.CLimbCat
 import Proofs.Lemmas.Signed
+import Proofs.Lemmas.FastRun
 /-!
 # C02 — FastSimulation and CompiledSimulation are observably identical to Simulation
 
@@ -160,6 +162,96 @@ example : FastSim.exec .mux (castArgs [(1, 1), (4, 9), (4, 15)]) 2 = 3 := by dec
 example : SaneWidths .mux [(1, 1), (4, 9), (4, 15)] := rfl
 
 
+/-! ## FastSimulation: whole runs
+
+`FastSim.step` is `FastSimulation.step` over the per-net expressions above (`FastSim.stepWith`, the skeleton
+`Simulation.step` also has: `C01.pysim_step_eq_spec` is the same statement for `PySim.netFun`). -/
+
+/-- what `sanity_check_net` guarantees for a net: argument widths agree, a select has one argument and its
+    indices lie inside it -/
+def NetSane (b : Block) (n : Net) : Prop :=
+  match n.op with
+  | .select idx => ∃ a, n.args = [a] ∧ ∀ i ∈ idx, i < b.width a
+  | op => SaneWidths op ((n.args.map b.width).zip (n.args.map b.width))
+
+/-- the statement FastSimulation generates for a net stores the documented value -/
+theorem fast_netFun_eq_spec (b : Block) (st : State) (n : Net) (vals : List Nat)
+    (hlen : vals.length = n.args.length)
+    (hs : match n.op with
+          | .select idx => ∃ a, n.args = [a] ∧ ∀ i ∈ idx, i < b.width a
+          | op => SaneWidths op ((n.args.map b.width).zip vals))
+    (hr : InRange ((n.args.map b.width).zip vals)) :
+    FastSim.netFun b st n vals = Pyrtl.netFun b st n vals := by
+  unfold FastSim.netFun Pyrtl.netFun
+  have hcast : (n.args.map b.width).zip (vals.map Int.ofNat) = castArgs ((n.args.map b.width).zip vals) := by
+    simp [castArgs, List.zip_map_right]
+  cases hop : n.op with
+  | mread m => simp only []; exact PySim.san_nat _ _
+  | select idx =>
+    simp only [hop] at hs
+    obtain ⟨a, ha, hidx⟩ := hs
+    simp only []
+    rw [hcast]
+    obtain ⟨v, hv⟩ : ∃ v, vals = [v] := by
+      rw [ha] at hlen
+      match vals, hlen with
+      | [v], _ => exact ⟨v, rfl⟩
+    subst hv
+    simp only [ha, List.map_cons, List.map_nil, List.zip_cons_cons, List.zip_nil_right]
+    have hav : v < 2 ^ b.width a := by
+      have := hr (b.width a, v) (by simp [ha])
+      exact this
+    rw [fast_select_eq_spec idx (b.width a) v _ hav hidx]
+    simp
+  | _ =>
+    simp only [hop] at hs
+    simp only []
+    rw [hcast, fast_exec_eq_spec _ _ _ hr hs (by intro idx h; simp at h)]
+    simp
+
+theorem saneWidths_vals (op : Op) (ws : List Nat) (vals vals' : List Nat) (h1 : vals.length = ws.length)
+    (h2 : vals'.length = ws.length) (h : SaneWidths op (ws.zip vals)) : SaneWidths op (ws.zip vals') := by
+  match ws, vals, vals', h1, h2 with
+  | [], [], [], _, _ => exact h
+  | [w], [v], [v'], _, _ => cases op <;> simpa [SaneWidths] using h
+  | [w1, w2], [v1, v2], [v1', v2'], _, _ => cases op <;> simpa [SaneWidths] using h
+  | [w1, w2, w3], [v1, v2, v3], [v1', v2', v3'], _, _ => cases op <;> simpa [SaneWidths] using h
+  | w1 :: w2 :: w3 :: w4 :: ws, v1 :: v2 :: v3 :: v4 :: vs, v1' :: v2' :: v3' :: v4' :: vs', _, _ =>
+    cases op <;> simp [SaneWidths] at h ⊢
+
+/-- FastSimulation's net function is the documented one on every sane net -/
+theorem fast_nfOk (b : Block) (order : List Net) (hs : ∀ n ∈ order, NetSane b n) :
+    FastRun.NfOk b order (FastSim.netFun b) := by
+  intro st n hn vals hlen hr
+  apply fast_netFun_eq_spec b st n vals hlen _ hr
+  have := hs n hn
+  unfold NetSane at this
+  cases hop : n.op with
+  | select idx => simpa [hop] using this
+  | _ =>
+    simp only [hop] at this ⊢
+    exact saneWidths_vals _ _ _ _ (by simp) (by simp [hlen]) this
+
+/-- **One cycle of FastSimulation** = the documented cycle semantics, state correspondence kept -/
+theorem fastsim_step_eq_spec (b : Block) (order : List Net) (hwf : C01.WF b order) (hs : ∀ n ∈ order, NetSane b n)
+    (s : PySim.Sim) (st : State) (hinv : C01.Inv b s st) (inp : Env) (hin : C01.InputsOk b inp) :
+    (∀ w, C01.Good b order w →
+        (FastSim.step b order (writeNets b) s inp).1 w = (Pyrtl.step b order st inp).1 w ∧
+        (Pyrtl.step b order st inp).1 w < 2 ^ b.width w) ∧
+    C01.Inv b (FastSim.step b order (writeNets b) s inp).2 (Pyrtl.step b order st inp).2 :=
+  FastRun.stepWith_eq_spec b order (FastSim.netFun b) (fast_nfOk b order hs) hwf s st hinv inp hin
+
+/-- **Whole runs of FastSimulation**, any number of cycles: every meaningful wire, every cycle, has the value of
+    the documented semantics — hence the value `Simulation` traces (`C01.pysim_run_eq_spec`) -/
+theorem fastsim_run_eq_spec (b : Block) (order : List Net) (hwf : C01.WF b order) (hs : ∀ n ∈ order, NetSane b n) :
+    ∀ (inps : List Env) (s : PySim.Sim) (st : State), C01.Inv b s st → (∀ inp ∈ inps, C01.InputsOk b inp) →
+      C01.RunsAgree b order (FastSim.run b order (writeNets b) s inps) (Pyrtl.run b order st inps) :=
+  FastRun.runWith_eq_spec b order (FastSim.netFun b) (fast_nfOk b order hs) hwf
+
+/-- `Simulation.step` is the same skeleton over its own net function -/
+theorem pysim_step_is_stepWith (b : Block) (order wr : List Net) (s : PySim.Sim) (inp : Env) :
+    PySim.step b order wr s inp = FastSim.stepWith (PySim.netFun b) b order wr s inp := rfl
+
 /-! ## CompiledSimulation: the C statements of a net on 64-bit limbs
 
 `CLimb.emit*` are the statements `CompiledSimulation._build_*` writes for one net (the generated text is
@@ -291,6 +383,25 @@ theorem compiled_select_eq_spec (σ0 : CLimb.Env) (idx : List Nat) (wa wd A : Na
   have hlt := CLimb.selectVal_lt (idx.take wd) A
   rw [hlen] at hlt
   exact (Nat.mod_eq_of_lt hlt).symm
+
+/-- **`c`** (concat) at the natural destination width (the sum of the argument widths): the arguments are cut
+    into pieces of at most one limb, packed into the destination limbs, pieces that cross a limb boundary being
+    continued in the next limb; the destination holds the documented concatenation, first argument most
+    significant.  PARTIAL: a raw destination narrower than the arguments together is covered by the text tie
+    and the value comparison only. -/
+theorem compiled_concat_eq_spec_partial (σ0 : CLimb.Env) (ws : List Nat) (Vs : Nat → Nat) (hne : ws ≠ [])
+    (hpos : ∀ w ∈ ws, 0 < w) (henc : ∀ k, CLimb.Enc σ0 k (Vs k)) (hlt : ∀ p ∈ ws.zipIdx, Vs p.2 < 2 ^ p.1) :
+    CLimb.destVal (CLimb.execList σ0 (CLimb.emitConcat ws ws.sum)) (CLimb.limbs ws.sum)
+      = Spec.comb .concat (ws.zipIdx.map fun p => (p.1, Vs p.2)) ws.sum := by
+  rw [CLimb.emitConcat_correct σ0 ws Vs hne hpos henc hlt]
+  simp only [Spec.comb]
+  -- the concatenation fits the destination
+  have h := CLimb.concatVal_eq (ws.zipIdx.map fun p => (p.1, Vs p.2)) 0
+  obtain ⟨s1, s2, s3⟩ := CLimb.pieces_of_args Vs ws.zipIdx.reverse (fun p hp => hlt p (by simpa using hp))
+  have hlt' := CLimb.SV_lt Vs _ (fun q hq => (s3 q hq).1)
+  rw [s2, CLimb.sumW_map, CLimb.zipIdx_fst_sum, s1] at hlt'
+  rw [h, Nat.zero_mul, Nat.zero_add, List.map_reverse] at *
+  exact (Nat.mod_eq_of_lt hlt').symm
 
 -- the hypotheses are satisfiable; a two-limb addition with a carry across the limb boundary
 example : CLimb.destVal (CLimb.execList ⟨[(.arg 0 0, 2 ^ 64 - 1), (.arg 0 1, 1), (.arg 1 0, 1), (.arg 1 1, 0)]⟩
